@@ -66,6 +66,9 @@ FLAVOURS = {
     'warnfilter': ['>>> import warnings', '>>> warnings.simplefilter("error")',
                    '>>> warnings.filterwarnings("ignore", message="zzz")'],
     'awaits': ['>>> import asyncio', '>>> await asyncio.sleep(0)'],
+    # the body closes the stream it prints to (code under test that closes the file it was handed): that stream is the
+    # library's capture stream, every later part of the run has to cope with it
+    'closes_stdout': ['>>> import sys', '>>> sys.stdout.close()'],
 }
 POSITIONS = ['first', 'middle', 'last']
 ON_ERROR = ['return', 'raise']
@@ -497,7 +500,7 @@ def classify(v):
     return None
 
 
-LEVEL_TEXT = ("Fault enumeration: the full table outcome x flavour x position x on_error x verbosity (840 runs) plus the import "
+LEVEL_TEXT = ("Fault enumeration: the full table outcome x flavour x position x on_error x verbosity x mode (2016 runs) plus the import "
               "kinds is executed with a process-state 'leak sanitizer' around every call: identities and values of the "
               "process globals before and after must be equal whatever the call returned or raised (SystemExit and "
               "KeyboardInterrupt included) and every event loop created in between must be closed.  Thorough adds a -X dev "
